@@ -282,7 +282,7 @@ def _callexpr(shape, cands, p, arg):
     raise ValueError(shape)
 
 
-def dag_formula(k, shape=0, default=False, fail=None, uncached_read=False):
+def dag_formula(k, shape=0, default=False, fail=None, uncached_read=False, reads_z=True):
     """Source text of cells ck.  shape: call spelling; default: `def ck(t=0)`;
     fail: None | 'raise' | 'zerodiv' | 'none' (failure at (F, FT) read from refs)."""
     cands = ["c%d" % j for j in range(k)]
@@ -292,7 +292,7 @@ def dag_formula(k, shape=0, default=False, fail=None, uncached_read=False):
         lines.append("        raise ValueError('boom')")
     elif fail == "zerodiv":
         lines.append("    hit(-1, 1 // (0 if (F == %d and FT == t) else 1))" % k)
-    lines.append("    r = v%d + t + Sub.z + g" % k)
+    lines.append("    r = v%d + t + %s + g" % (k, "Sub.z" if reads_z else "0"))
     if k > 0:
         lines.append("    if p1_%d >= 0:" % k)
         lines.append("        r = r + %s" % _callexpr(shape, cands, "p1_%d" % k, "t"))
@@ -310,7 +310,8 @@ def dag_formula(k, shape=0, default=False, fail=None, uncached_read=False):
 class Dag:
     """Concrete construction (under NoTracing) + symbolic parameterisation + independent oracle."""
 
-    def __init__(self, n, shapes=None, defaults=None, fail=None, cached=None, tag="D"):
+    def __init__(self, n, shapes=None, defaults=None, fail=None, cached=None, tag="D", zreaders=None):
+        self.zreaders = list(zreaders) if zreaders is not None else [True] * n      # which cells read Sub.z (attribute path)
         self.n = n
         self._rp = {}
         self.inputs = {}
@@ -336,7 +337,7 @@ class Dag:
             self.cells = []
             self.sources = []
             for k in range(n):
-                src = dag_formula(k, shape=(shapes[k] if shapes else 0), default=bool(defaults and defaults[k]), fail=fail)
+                src = dag_formula(k, shape=(shapes[k] if shapes else 0), default=bool(defaults and defaults[k]), fail=fail, reads_z=self.zreaders[k])
                 self.sources.append(src)
                 c = S.new_cells("c%d" % k, formula=src)
                 if cached is not None and not cached[k]:
@@ -378,7 +379,7 @@ class Dag:
         if (k, t) in self.inputs:
             return self.inputs[(k, t)]
         p1, p2, T = self.rp(k)
-        r = self.V[k] + t + self.z + self.g
+        r = self.V[k] + t + (self.z if self.zreaders[k] else 0) + self.g
         if p1 >= 0:
             r = r + self.val(p1, t)
         if p2 >= 0:
